@@ -273,11 +273,11 @@ class Extractor:
     def owned_expr(self, e, aliases):
         return isinstance(e, (ast.Name, ast.Attribute, ast.Subscript)) and not self.chain_has_call(e) and self.root_of(e) in aliases
 
-    def effects_of(self, fn, owned, kind, out, seen, mod_funcs):
+    def effects_of(self, fn, owned, kind, out, seen, mod_funcs, in_fork=False):
         """every call the function makes that may change state the solver owns (or a global RNG)"""
-        if (fn.name, tuple(sorted(owned))) in seen:
+        if (fn.name, tuple(sorted(owned)), in_fork) in seen:
             return
-        seen.add((fn.name, tuple(sorted(owned))))
+        seen.add((fn.name, tuple(sorted(owned)), in_fork))
         aliases = set(owned)
         for _ in range(3):                                   # names bound to solver-owned objects without a call in between
             for n in ast.walk(fn):
@@ -296,6 +296,20 @@ class Extractor:
                                                for i in n.items):
                 for b in n.body:
                     forked |= {id(x) for x in ast.walk(b)}
+        if in_fork:                                          # the caller runs this code inside a fork_rng block
+            forked = {id(x) for x in ast.walk(fn)}
+        sol_names = set()                                    # names bound to a solution object of the solver
+        for n in ast.walk(fn):
+            if isinstance(n, ast.Assign) and isinstance(n.value, ast.Call) and isinstance(n.value.func, ast.Attribute) \
+                    and n.value.func.attr == 'get_solution' and self.root_of(n.value.func) in aliases:
+                sol_names |= {t.id for t in n.targets if isinstance(t, ast.Name)}
+        for n in ast.walk(fn):
+            # a forward pass through the solver's networks (copies included): stochastic layers in training mode
+            # draw from torch's global RNG
+            if isinstance(n, ast.Call) and id(n) not in forked and (
+                    (isinstance(n.func, ast.Call) and isinstance(n.func.func, ast.Attribute) and n.func.func.attr == 'get_solution'
+                     and self.root_of(n.func.func) in aliases) or (isinstance(n.func, ast.Name) and n.func.id in sol_names)):
+                out.append((kind, 'forward', n.lineno))
         for n in ast.walk(fn):
             # writes through an alias
             if isinstance(n, (ast.Assign, ast.AugAssign, ast.Delete)):
@@ -344,7 +358,7 @@ class Extractor:
                     if kw.arg in params and self.owned_expr(kw.value, aliases):
                         sub.add(kw.arg)
                 if sub:
-                    self.effects_of(g, sub, kind, out, seen, mod_funcs)
+                    self.effects_of(g, sub, kind, out, seen, mod_funcs, in_fork=id(n) in forked)
                 continue
             if own_args and isinstance(f, ast.Attribute) and f.attr in self.PURE_ARG_METHODS and self.root_of(f) not in aliases:
                 continue
@@ -357,25 +371,27 @@ class Extractor:
         dumps = [n.lineno for n in ast.walk(fn) if isinstance(n, ast.Call) and ast.unparse(n.func) == 'dill.dump']
         out, seen = [], set()
         # calls guarded by a test on the class name belong to that solver kind
-        def walk(stmts, kind):
+        def walk(stmts, kind, fork):
             for s in stmts:
                 if isinstance(s, ast.If):
                     ks = {k for k in KINDS if f"'{k}'" in ast.unparse(s.test)}
-                    walk(s.body, ks.pop() if len(ks) == 1 else kind)
-                    walk(s.orelse, kind)
-                    self.scan_stmt(ast.Expr(value=s.test), fn, kind, out, seen, mod_funcs)
+                    walk(s.body, ks.pop() if len(ks) == 1 else kind, fork)
+                    walk(s.orelse, kind, fork)
+                    self.scan_stmt(ast.Expr(value=s.test), fn, kind, out, seen, mod_funcs, fork)
                 elif isinstance(s, (ast.For, ast.While, ast.With, ast.Try)):
+                    inner = fork or (isinstance(s, ast.With) and any(
+                        ast.unparse(i.context_expr) in ('torch.random.fork_rng()', 'torch.random.fork_rng(devices=[])') for i in s.items))
                     for blk in ('body', 'orelse', 'finalbody'):
-                        walk(getattr(s, blk, []) or [], kind)
+                        walk(getattr(s, blk, []) or [], kind, inner)
                     for h in getattr(s, 'handlers', []):
-                        walk(h.body, kind)
+                        walk(h.body, kind, inner)
                     hdr = [getattr(s, 'iter', None), getattr(s, 'test', None)] + [i.context_expr for i in getattr(s, 'items', [])]
                     for e in hdr:
                         if e is not None:
-                            self.scan_stmt(ast.Expr(value=e), fn, kind, out, seen, mod_funcs)
+                            self.scan_stmt(ast.Expr(value=e), fn, kind, out, seen, mod_funcs, fork)
                 else:
-                    self.scan_stmt(s, fn, kind, out, seen, mod_funcs)
-        walk(fn.body, 'all')
+                    self.scan_stmt(s, fn, kind, out, seen, mod_funcs, fork)
+        walk(fn.body, 'all', False)
         for kind, eff, line in out:
             pass
         helper_lines = [n.lineno for n in ast.walk(fn) if isinstance(n, ast.Call) and isinstance(n.func, ast.Name) and n.func.id in mod_funcs
@@ -388,10 +404,10 @@ class Extractor:
                 res.append((kind, eff))
         return res
 
-    def scan_stmt(self, s, fn, kind, out, seen, mod_funcs):
+    def scan_stmt(self, s, fn, kind, out, seen, mod_funcs, fork=False):
         """effects of one statement of save() itself: wrap it into a pseudo-function sharing save's aliases"""
         pseudo = ast.FunctionDef(name=f'save@{getattr(s, "lineno", 0)}', args=fn.args, body=[s], decorator_list=[], lineno=getattr(s, 'lineno', 0))
-        self.effects_of(pseudo, {'self'}, kind, out, seen, mod_funcs)
+        self.effects_of(pseudo, {'self'}, kind, out, seen, mod_funcs, in_fork=fork)
 
     # ------------------------------------------------------------------ load (symbolic run under the default config)
     def prov(self, e, env):
